@@ -143,6 +143,25 @@ def reshape_ordered(swap, order, **kw):
     return _pivot_check(rows, ('r', 'k', 'agg'), 1, True, True if swap else False, pick(ORDERS, order)()) or 'ok'
 
 
+@cond('C15.reshape.empty', quick=60,
+      bounds='the aggregate result is empty (empty table, or a WHERE condition no row satisfies): the pivoted result has the single '
+             'leading column first/second, typed like the first column, and no rows; PIVOT BY r, k and k, r, by name and by position',
+      symbolic='(none)', enumerated='way of being empty, pivot order, spelling', params={'why': bool, 'swap': bool, 'by_name': bool})
+def reshape_empty(why, swap, by_name):
+    rows = [] if why else [(0, 1, 5), (1, 0, 7)]
+    where = None if why else ast.And([ast.IsNull(col('r')), ast.IsNotNull(col('r'))])
+    first, second = ('k', 'r') if swap else ('r', 'k')
+    refs = [col(first), col(second)] if by_name else ([2, 1] if swap else [1, 2])
+    stmt = sel([target(col('r')), target(col('k')), target(func('sum', col('v')), 's')], 't', where=where,
+               group_by=ast.GroupBy([col('r'), col('k')], None), pivot_by=ast.PivotBy(refs))
+    desc, got = execute(connect(t=HTable('t', COLUMNS, rows)), stmt)
+    if [(c.name, c.datatype) for c in desc] != [(f'{first}/{second}', int)]:
+        return 'description-of-an-empty-pivot'
+    if got != []:
+        return 'rows'
+    return 'ok'
+
+
 @cond('C15.validate', quick=120,
       bounds='SELECT r, k, sum(v) AS s [hidden GROUP BY / ORDER BY targets] PIVOT BY p, q with p, q symbolic positions in '
              '-1..6, each spelled as a position or as the name of that target (an unknown name when out of range): accepted iff '
